@@ -182,8 +182,55 @@ func (h *c17H) targetFamilies(src []string, n int, full bool) error {
 			}
 		}
 	}
+	// things special to a csv reader, in every column and row position class: the importer's reader must see what
+	// encoding/csv in its default configuration sees (a comment character, lazy quotes, trimmed blanks .. would change that)
+	rawField := []string{"hash", "qlead", "qmid", "qtrail", "qpair", "quoted", "qq", "comma", "qcomma", "cr", "qlf", "bom", "tblank", "lblank", "ttab", "nul"}
+	rawLine := []string{"emptyline", "blankline", "commas", "crlf", "hashline"}
+	addRaw := func(kind string, col int) {
+		rows := rowsToHit
+		if !h.c.Thorough() {
+			row := rowsToHit[r.Intn(len(rowsToHit))]
+			if row == 0 && n > 1 && r.Intn(3) != 0 {
+				row = n - 1
+			}
+			rows = []int{row}
+		}
+		for _, row := range rows {
+			k := fmt.Sprintf("kraw %d %d %s", row, col, kind)
+			tail := []string{k, "i"}
+			if r.Intn(3) == 0 {
+				tail = append(tail, "i")
+			}
+			steps = append(steps, func() error { return h.run("csv:"+kind, src, tail...) })
+			if row > 0 && (full && (kind == "hash" || kind == "emptyline" || r.Intn(2) == 0) || !full && r.Intn(3) == 0) {
+				below := []string{fmt.Sprintf("p %d g", row-1), k, "i", "i"}
+				steps = append(steps, func() error { return h.run("csv-below-checkpoint:"+kind, src, below...) })
+			}
+		}
+	}
+	for _, kind := range rawField {
+		cols := []int{0, 1, 2, 3, 4}
+		if !h.c.Thorough() {
+			// the first field always (comment character, byte order mark), two of the others
+			p := r.Perm(4)
+			cols = []int{0, 1 + p[0], 1 + p[1]}
+		}
+		for _, col := range cols {
+			addRaw(kind, col)
+		}
+	}
+	for _, kind := range rawLine {
+		addRaw(kind, 0)
+	}
 	mid := r.Intn(n)
+	nonceOther := fmt.Sprintf("kset %d 2 %d", mid, 12345+r.Intn(1000))
 	structural := [][]string{
+		// the import and its validation do not depend on the p2p options of the configuration
+		{"c dc", "i"}, {"c ex", "i", "i"}, {"c dc,ex", "i"},
+		{"c dc", fmt.Sprintf("p %d b", mid), "i", "i"}, {"c ex", fmt.Sprintf("p %d b", mid), "i"}, {"c dc,ex", fmt.Sprintf("p %d b", n-1), "i", "i"},
+		{"c dc", fmt.Sprintf("p %d g", n), "i", "i"}, {"c dc,ex", fmt.Sprintf("p %d g", n+3), "i"},
+		{"c dc", nonceOther, "i", "i"}, {"c dc", fmt.Sprintf("p %d g", mid), nonceOther, "i"}, {"c ex", nonceOther, "i"},
+		{"c dc", fmt.Sprintf("kset %d 0 abc", mid), "i"}, {"c dc", "tg", fmt.Sprintf("p %d b", mid), "i"}, {"c dc", "kempty", "i"},
 		{fmt.Sprintf("kdelcol %d %d", mid, r.Intn(5)), "i", "i"},
 		{fmt.Sprintf("kaddcol %d 0", mid), "i"},
 		{fmt.Sprintf("kaddcol %d ~", n-1), "i", "i"},
@@ -212,6 +259,9 @@ func (h *c17H) targetFamilies(src []string, n int, full bool) error {
 	for _, t := range structural {
 		t := t
 		cl := strings.Fields(t[0])[0]
+		if cl == "c" {
+			cl = "config:" + strings.Fields(t[0])[1] + ":" + strings.Fields(t[1])[0]
+		}
 		if cl == "p" {
 			cl = "checkpoint:" + strings.Fields(t[0])[2]
 		}
@@ -374,15 +424,23 @@ func (h *c17H) generate() error {
 					{"ts-nonnumeric", set(4, "1e9")}, {"ts-range", set(4, "9223372036854775808")}, {"ts-empty", set(4, "~")},
 					{"column-missing", func(row int) string { return fmt.Sprintf("kdelcol %d %d", row, r.Intn(5)) }},
 					{"column-extra", func(row int) string { return fmt.Sprintf("kaddcol %d 0", row) }},
+					{"csv-comment-char", func(row int) string { return fmt.Sprintf("kraw %d 0 hash", row) }},
+					{"csv-open-quote", func(row int) string { return fmt.Sprintf("kraw %d %d qlead", row, r.Intn(5)) }},
+					{"csv-commas-only-line", func(row int) string { return fmt.Sprintf("kraw %d 0 commas", row) }},
 				}
 				rows := []int{b - 1, b, b + 1, 2*b - 1, 2 * b, 2*b + 1, en - 1}
 				for _, row := range rows {
 					atBoundary := row%b == 0
 					for _, below := range []bool{true, false} {
 						ks := kinds
-						if !c.Thorough() && !atBoundary {
+						if !c.Thorough() && !(atBoundary && below) {
+							// quick: every kind at the first row of a batch with the checkpoint below it, a sample elsewhere
+							take := 2
+							if atBoundary {
+								take = 6
+							}
 							ks = nil
-							for _, i := range r.Perm(len(kinds))[:3] {
+							for _, i := range r.Perm(len(kinds))[:take] {
 								ks = append(ks, kinds[i])
 							}
 						}
